@@ -22,6 +22,10 @@
                                block has MIR type blk+cls (cls 0..4) or rblk (cls 5) and <size> bytes.  The caller is
                                this harness: it places the arguments itself according to the System V ABI
                                (c03_call_abi), independently of MIR; engine `interp` uses MIR_interp_arr
+         callm <f> <t1,t2[,t3]> <a> <b> <xbits>
+                               C call, through item->addr, of a MULTI-RESULT function  f (i64, i64, d) -> (t1, t2[, t3]);
+                               the harness reads rax:rdx, xmm0:xmm1, st(0):st(1) itself (c03_call_ret) and hashes the
+                               results in order, each truncated to its type; engine `interp` uses MIR_interp_arr
      Usage and the `prog` command are those of engine.c. */
 #define _GNU_SOURCE
 #include <stdio.h>
@@ -334,6 +338,79 @@ static void do_callb (const char *fname, int ni, int nf, int cls, int size, uint
   print_cmp ("B", fname, args, rs, sgs, nlogs, c_logs);
 }
 
+/* ---------------- multiple results ---------------- */
+struct c03_ret { uint64_t rax, rdx; double x0, x1; long double st0, st1; };
+extern void c03_call_ret (void *fn, int64_t a, int64_t b, double x, struct c03_ret *o, int64_t nld);
+
+static int res_type (const char *t) { /* 0 i64, 1 i32, 2 u32, 3 i16, 4 u16, 5 i8, 6 u8, 7 f, 8 d, 9 ld */
+  static const char *n[] = {"i64", "i32", "u32", "i16", "u16", "i8", "u8", "f", "d", "ld"};
+  for (int i = 0; i < 10; i++) if (!strcmp (t, n[i])) return i;
+  return -1;
+}
+static uint64_t norm_int (int t, uint64_t v) {
+  switch (t) {
+  case 1: return (uint64_t) (int64_t) (int32_t) v;
+  case 2: return (uint32_t) v;
+  case 3: return (uint64_t) (int64_t) (int16_t) v;
+  case 4: return (uint16_t) v;
+  case 5: return (uint64_t) (int64_t) (int8_t) v;
+  case 6: return (uint8_t) v;
+  default: return v;
+  }
+}
+
+static void do_callm (const char *fname, char *types, uint64_t a, uint64_t b, uint64_t xb) {
+  int64_t rs[MAXENG]; int sgs[MAXENG], nlogs[MAXENG];
+  int ts[4], nt = 0, nld = 0;
+  char tcopy[64];
+  snprintf (tcopy, sizeof (tcopy), "%s", types);
+  for (char *t = strtok (types, ","); t != NULL && nt < 4; t = strtok (NULL, ",")) {
+    if ((ts[nt] = res_type (t)) < 0) { printf ("E bad-callm-type %s\n", t); return; }
+    if (ts[nt] == 9) nld++;
+    nt++;
+  }
+  for (int k = 0; k < neng; k++) {
+    MIR_item_t fi = find_func (engs[k].ctx, fname);
+    if (fi == NULL) { printf ("E no-func %s\n", fname); return; }
+    nlog = 0; rs[k] = 0;
+    int sg;
+    in_call = 1; alarm (4);
+    if ((sg = sigsetjmp (crash_env, 1)) == 0) {
+      uint64_t h = 99;
+      if (engs[k].kind == E_INTERP) {
+        MIR_val_t v[3], r[4];
+        memset (v, 0, sizeof (v)); memset (r, 0, sizeof (r));
+        v[0].i = (int64_t) a; v[1].i = (int64_t) b; v[2].d = b2d (xb);
+        MIR_interp_arr (engs[k].ctx, fi, r, 3, v);
+        for (int i = 0; i < nt; i++) {
+          if (ts[i] <= 6) h = c03_mix (h, norm_int (ts[i], (uint64_t) r[i].i));
+          else if (ts[i] == 7) { uint32_t w; memcpy (&w, &r[i].f, 4); h = c03_mix (h, w); }
+          else if (ts[i] == 8) { uint64_t w; memcpy (&w, &r[i].d, 8); h = c03_mix (h, w); }
+          else { double d = (double) r[i].ld; uint64_t w; memcpy (&w, &d, 8); h = c03_mix (h, w); }
+        }
+      } else {
+        struct c03_ret o;
+        int ii = 0, xi = 0, li = 0;
+        memset (&o, 0, sizeof (o));
+        c03_call_ret (fi->addr, (int64_t) a, (int64_t) b, b2d (xb), &o, nld);
+        for (int i = 0; i < nt; i++) {
+          if (ts[i] <= 6) h = c03_mix (h, norm_int (ts[i], ii++ == 0 ? o.rax : o.rdx));
+          else if (ts[i] == 7) { uint32_t w; memcpy (&w, xi++ == 0 ? &o.x0 : &o.x1, 4); h = c03_mix (h, w); }
+          else if (ts[i] == 8) { uint64_t w; memcpy (&w, xi++ == 0 ? &o.x0 : &o.x1, 8); h = c03_mix (h, w); }
+          else { double d = (double) (li++ == 0 ? o.st0 : o.st1); uint64_t w; memcpy (&w, &d, 8); h = c03_mix (h, w); }
+        }
+      }
+      rs[k] = (int64_t) h;
+    }
+    alarm (0); in_call = 0;
+    sgs[k] = sg; nlogs[k] = nlog;
+    memcpy (c_logs[k], logbuf, sizeof (logbuf[0]) * nlog);
+  }
+  char args[160];
+  snprintf (args, sizeof (args), "%s %llx %llx %llx", tcopy, (unsigned long long) a, (unsigned long long) b, (unsigned long long) xb);
+  print_cmp ("T", fname, args, rs, sgs, nlogs, c_logs);
+}
+
 int main (int argc, char **argv) {
   if (argc < 3) { fprintf (stderr, "usage: c03_iface <engines> <file.mir> [-q]\n"); return 2; }
   quiet = argc > 3 && !strcmp (argv[3], "-q");
@@ -381,6 +458,8 @@ int main (int argc, char **argv) {
       do_callh (tok[1], strtoull (tok[2], NULL, 16), strtoull (tok[3], NULL, 16), strtoull (tok[4], NULL, 16));
     } else if (!strcmp (tok[0], "wide") && nt >= 3) {
       do_wide (tok[1], strtoull (tok[2], NULL, 16));
+    } else if (!strcmp (tok[0], "callm") && nt >= 6) {
+      do_callm (tok[1], tok[2], strtoull (tok[3], NULL, 16), strtoull (tok[4], NULL, 16), strtoull (tok[5], NULL, 16));
     } else if (!strcmp (tok[0], "callb") && nt >= 7) {
       do_callb (tok[1], atoi (tok[2]), atoi (tok[3]), atoi (tok[4]), atoi (tok[5]), strtoull (tok[6], NULL, 16));
     } else
